@@ -190,7 +190,8 @@ func verifTagName(z *html.Tokenizer) ([]byte, bool) {
 	if verifToks[verifTokPos-1].pre {
 		return []byte("pre"), false
 	}
-	return []byte("div"), false
+	// other elements: among them names that merely start with, end in or contain "pre"
+	return [4][]byte{[]byte("div"), []byte("prefix"), []byte("p"), []byte("spre")}[verifapi.Concrete(verifapi.Choice("other.tag", 4))], false
 }
 func verifToken(z *html.Tokenizer) html.Token { return html.Token{} }
 
